@@ -10,7 +10,8 @@ up to four context switches between two threads (two between three) is
 explored path by path.  ``with <lock>:`` statements are modelled by a
 cooperative lock (a blocked thread is not runnable).  Everything else a thread
 does (singledispatch lookup, the printer itself, layout, rendering) is one
-atomic step.
+atomic step.  (The layout engine gets the same treatment separately, in
+vf/props/c20l.py.)
 
 A violation found this way is a real schedule (thread switches can happen at
 any bytecode boundary, hence at any statement boundary); the absence of
@@ -177,6 +178,12 @@ class Yielder:
     def block(self, stmts):
         out = []
         for st in stmts:
+            if isinstance(st, (ast.Global, ast.Nonlocal)) or (
+                    isinstance(st, ast.Expr) and isinstance(st.value, ast.Constant)):
+                # docstrings and declarations execute nothing (and produce no
+                # line event a real thread could be paused at)
+                out.append(st)
+                continue
             self.points += 1
             out.append(ast.Expr(value=ast.Yield(value=ast.Constant(value=getattr(st, 'lineno', 0)))))
             out.extend(self.stmt(st))
@@ -709,12 +716,18 @@ def h_sched_twin(c1: int, c2: int, c3: int, c4: int) -> bool:
 FAMILIES = {'schedule': base.Family('schedule', h_sched, h_sched_twin, ScheduleCase, _install)}
 
 
+def _families():
+    from vf.props import c20l
+    FAMILIES.setdefault('layout-schedule', c20l.FAMILY)
+    return FAMILIES
+
+
 def run_case(task):
-    return base.generic_run_case(FAMILIES, task)
+    return base.generic_run_case(_families(), task)
 
 
 def replay_case(task):
-    return base.generic_replay_case(FAMILIES, task)
+    return base.generic_replay_case(_families(), task)
 
 
 def cases(tier, seed):
@@ -748,14 +761,19 @@ def cases(tier, seed):
                         'params': {'setup': setup, 'threads': 3, 'ncuts': 3, 'maxstep': M, 'first': c1,
                                    'c3_values': C3_QUICK},
                         'budget': 120.0 if tier == 'quick' else 400.0, 'path_timeout': 60.0})
+    from vf.props import c20l
+    out.extend(c20l.cases(tier, seed))
     return out
 
 
 def evidence(tier, seed, tasks, results):
     code, points, locks, selected = build_coroutines()
+    from vf.props import c20l
+    lb = c20l.bounds(tier)
     return {
         'coverage': {
             'bounds': {
+                **lb,
                 'functions turned into coroutines (from the current source)': selected + ['register_pretty.<locals>.decorator'],
                 'yield points inserted': points,
                 'locks modelled': locks,
@@ -764,8 +782,8 @@ def evidence(tier, seed, tasks, results):
                 'scenarios': 'first print of a lazily (by name) registered type by both threads; lazily registered base class with subclass instances; two lazy levels; direct registration shadowed by a newer by-name one; lazily / directly / not registered types mixed',
             },
             'note': 'switch points are solver variables concretised by chains: each path is one schedule, executed on the real shared module state; a violation is a real schedule, absence of violations is claimed for statement-granularity interleavings of these functions only',
-            'outside_the_claim': 'thread switches inside a statement, inside functools.singledispatch, inside the printers, the layout or the renderer; cpprint (global colorful palette); concurrent register_pretty calls',
+            'outside_the_claim': 'thread switches inside a statement, inside functools.singledispatch, inside the printers or the renderer; switches inside the layout are explored separately (layout-schedule family: two threads inside layout.py, everything before the layout atomic) and not combined with switches on the registration path; cpprint (global colorful palette); concurrent register_pretty calls',
         },
-        'assumptions': ['a statement of the three functions executes atomically in the model; all other code of a pformat call is one atomic step',
+        'assumptions': ['a statement of the transformed functions executes atomically in the model; all other code of a pformat call is one atomic step',
                         'threading.Lock / RLock objects named in a module-level assignment are modelled by a cooperative re-entrant lock'],
     }
